@@ -58,6 +58,40 @@ Definition c06_pieces (h d : list Z) : string :=
 Definition c06_steps (h d : list Z) : string :=
   show_fields (map (fun k => (k, show_steps (steps_of k h d))) kinds).
 
+
+(** a given history of front (F) / back (B) steps on ONE Split iterator ([swap]: the iterator is
+    an RSplit, whose [next] is the back block).  Every step shows the piece and the remainder as
+    views, [N] when the iterator reports exhaustion. *)
+Fixpoint run_hist (swap : bool) (hist : list bool) (s : split_st) (base : Z) : list string :=
+  match hist with
+  | [] => []
+  | front :: r =>
+      let use_front := if swap then negb front else front in
+      if use_front then
+        match split_next s with
+        | Done => "N" :: run_hist swap r s base
+        | StepPanic => ["PANIC"]
+        | Yield p s' =>
+            let base' := base + zlen (s_this s) - zlen (s_this s') in
+            ("(" ++ show_view base (zlen p) ++ "," ++ show_view base' (zlen (s_this s')) ++ ")")
+              :: run_hist swap r s' base'
+        end
+      else
+        match split_next_back s with
+        | Done => "N" :: run_hist swap r s base
+        | StepPanic => ["PANIC"]
+        | Yield p s' =>
+            ("(" ++ show_view (base + zlen (s_this s) - zlen p) (zlen p) ++ "," ++ show_view base (zlen (s_this s')) ++ ")")
+              :: run_hist swap r s' base
+        end
+  end.
+
+Fixpoint hist_of (l : list Z) : list bool :=
+  match l with [] => [] | b :: r => (b =? 70)%Z :: hist_of r end.   (* 'F' = 70 *)
+
+Definition c06_hist (swap : bool) (h d : list Z) (hist : list Z) : string :=
+  show_list (fun x => x) (run_hist swap (hist_of hist) (split_init h d) 0).
+
 Definition c06_run (fam : string) (args : list val) : option string :=
   match args with
   | [h; d] =>
@@ -65,6 +99,12 @@ Definition c06_run (fam : string) (args : list val) : option string :=
       else if String.eqb fam "c06.steps" then Some (c06_steps (as_bytes h) (as_bytes d))
       else if String.eqb fam "c06.pieceschar" then Some (c06_pieces (as_bytes h) (encode_m (as_Z d)))
       else if String.eqb fam "c06.stepschar" then Some (c06_steps (as_bytes h) (encode_m (as_Z d)))
+      else None
+  | [h; d; hist] =>
+      if String.eqb fam "c06.hist" then Some (c06_hist false (as_bytes h) (as_bytes d) (as_bytes hist))
+      else if String.eqb fam "c06.rhist" then Some (c06_hist true (as_bytes h) (as_bytes d) (as_bytes hist))
+      else if String.eqb fam "c06.histchar" then Some (c06_hist false (as_bytes h) (encode_m (as_Z d)) (as_bytes hist))
+      else if String.eqb fam "c06.rhistchar" then Some (c06_hist true (as_bytes h) (encode_m (as_Z d)) (as_bytes hist))
       else None
   | _ => None
   end.
